@@ -606,6 +606,9 @@ OohSorted == \A s \in Series : /\ Len(ooh[s]) <= OOOCap
 
 -----------------------------------------------------------------------------
 (* Emission *)
+TombRel(cut) == IF \E s \in Series : \E iv \in htomb[s] : iv[2] = cut THEN "at"
+                ELSE IF \E s \in Series : \E iv \in htomb[s] : iv[2] = cut - 1 THEN "below"
+                ELSE IF \E s \in Series : htomb[s] # {} THEN "other" ELSE "none"
 NChunks(q) == Cardinality({x.t \div R : x \in Range(q)})
 MaxChunks(f) == SetMax({NChunks(f[s]) : s \in Series})
 LastRec == hist'[Len(hist')]
@@ -619,12 +622,14 @@ Class == LET r == LastRec IN
                                        ooh' # ooh, oom' # oom, app[r.app].st>>
          ELSE IF r.a = "Compact" THEN <<r.a, r.nblocks, ooh' # ooh \/ oom' # oom, blkMax = NegInf, r.kf,
                                         \* number of head chunks (one per chunk range) of the fullest series before / after
-                                        MaxChunks(ino), MaxChunks(ino')>>
+                                        MaxChunks(ino), MaxChunks(ino'),
+                                        \* a head tombstone ending exactly at / just below the new head start
+                                        TombRel(minValid')>>
          ELSE IF r.a = "Delete" THEN <<r.a, r.kf, stored' # stored, hdel' # hdel, ooh' # ooh \/ oom' # oom, blk' # blk>>
          ELSE IF r.a = "CompactStale" THEN <<r.a, r.n, blkMax = NegInf, hMin < 0, \E s \in StaleSet : hdel[s] # {}>>
          ELSE IF r.a = "Import" THEN <<r.a, stored' = [stored EXCEPT !["s1"] = @ \cup {[t |-> r.lo, v |-> 2, ty |-> "f"], [t |-> r.hi, v |-> 2, ty |-> "f"]}],
                                       r.hi + 1 > blkMax, blkMax = NegInf, ino' # ino>>
-         ELSE IF r.a = "Reopen" THEN <<r.a, kfset, ino' # ino, wino # ino, blkMax = NegInf, hInit>>
+         ELSE IF r.a = "Reopen" THEN <<r.a, kfset, ino' # ino, wino # ino, TombRel(blkMax), blkMax = NegInf, hInit>>
          ELSE <<r.a>>
 
 Emit ==
